@@ -289,3 +289,18 @@ Definition v_unique_directives_per_location (s : sdocument) (d : document) : boo
                                                    | Some dd => if dd_repeatable dd then [] else [d_name x]
                                                    | None => []
                                                    end) (snd site)))) (directive_sites d).
+
+(* ---------------------------------------------------------------- positions of the nodes of a document *)
+Definition node_pos (x : selection) : pos :=
+  match x with SField p _ _ _ _ _ _ | SSpread p _ _ | SInline p _ _ _ _ => p end.
+Definition sels_positions (l : list selection) : list pos :=
+  flat_map (fun y => node_pos y :: map d_pos (sel_dirs y)) (sels_all l).
+Definition doc_positions (d : document) : list pos :=
+  flat_map (fun x =>
+              match x with
+              | DOp o =>
+                  match o_kind o with OpSelSet => [] | _ => [o_pos o] end ++
+                  map v_pos (op_variable_definitions o) ++ map d_pos (op_directives o) ++
+                  sels_positions (o_sels o)
+              | DFrag f => fr_pos f :: map d_pos (fr_dirs f) ++ sels_positions (fr_sels f)
+              end) d.
